@@ -13,6 +13,8 @@ from __future__ import annotations
 
 import math
 
+import numpy as np
+
 from .. import env
 from ..core import Stats, exc_site, exc_text
 from ..harness import Compiled, cs_compile, np_step
@@ -136,7 +138,8 @@ def check_spec(spec: NetSpec, label, st: Stats, plan):
                 case = {"spec": spec.describe(), "config": label, "P": P, "val": {f"{k[0]}.{k[1]}": v for k, v in val.items()},
                         "engine": "numpy", "edited": emode}
                 try:
-                    nxt, built, raw = np_step(spec, val, P, built=build_edited(spec, P, emode))
+                    eng_ = env.numpy_engine(np.float64(27.5))  # the SAME engine object before and after the edit
+                    nxt, built, raw = np_step(spec, val, P, built=build_edited(spec, P, emode, engine=eng_), engine=eng_)
                 except Exception as e:  # noqa: BLE001
                     problems.append((f"C02/exception/{exc_site(e)}/{type(e).__name__}", f"numpy (edited network): {exc_text(e)}", case))
                     break
